@@ -14,6 +14,9 @@ import (
 type wireEditCfg struct {
 	Shuffle, Drop, Insert, Retype, Renumber bool
 	Trailing                                bool
+	// OddBool: bools may hold a byte other than 0 and 1 (accepted by the decoder; what the Go
+	// value then is stays outside the model, so only differential checks ask for it)
+	OddBool bool
 	MaxInsert                               int
 }
 
@@ -64,6 +67,11 @@ func editStruct(t *rapid.T, n *core.WNode, e wireEditCfg, depth int, stats map[s
 	var rec func(v *core.WNode)
 	rec = func(v *core.WNode) {
 		switch v.T {
+		case core.WBool:
+			if e.OddBool && rapid.IntRange(0, 2).Draw(t, "oddbool") == 0 {
+				v.U = uint64(rapid.IntRange(2, 255).Draw(t, "oddboolbyte"))
+				stats["oddbool"]++
+			}
 		case core.WStruct:
 			editStruct(t, v, e, depth+1, stats)
 		case core.WList, core.WSet:
